@@ -12,6 +12,7 @@ CONSTANTS
   Disc = TRUE
   LockWrites = FALSE
   StopKA = FALSE
+  CloseAtomic = TRUE
   KeepSink = FALSE
   AllowSkip = TRUE
 CONSTRAINT HighWater
